@@ -386,6 +386,146 @@ Proof.
   - apply oks_true.
 Qed.
 
+(* ========================= Dict over copy-on-access mappings (shelve) *)
+Definition cdict_rep (s : cdstate) (r : rstore) (id : N) : Prop :=
+  match rlookup r id with
+  | Some en => alookup N.eqb (cd_env s) id = Some (en_env en) /\
+               alookup N.eqb (cd_meta s) id = Some (mkDMeta (en_ts en) (en_att en))
+  | None => alookup N.eqb (cd_env s) id = None /\ alookup N.eqb (cd_meta s) id = None
+  end.
+
+Record RCDict (s : cdstate) (r : rstore) : Prop := {
+  rcd_ref : ref_ok r;
+  rcd_nodup : NoDup (akeys (cd_meta s));
+  rcd_rep : forall id, cdict_rep s r id }.
+
+Lemma RCDict_init : RCDict cdict_init [].
+Proof. split; [constructor|constructor|intros id; split; reflexivity]. Qed.
+
+Lemma cdict_view_rep s r id : RCDict s r -> cdict_view s id = rlookup r id.
+Proof.
+  intros H. pose proof (rcd_rep s r H id) as Hr. unfold cdict_rep in Hr. unfold cdict_view.
+  destruct (rlookup r id) as [en|]; destruct Hr as [-> ->]; [destruct en|]; reflexivity.
+Qed.
+
+Lemma cdict_pick_first_free s r cands : RCDict s r -> cdict_pick (cd_env s) cands = first_free r cands.
+Proof.
+  intros H. induction cands as [|c cs IH]; cbn [cdict_pick first_free]; [reflexivity|].
+  rewrite nmem_get. pose proof (rcd_rep s r H c) as Hc. unfold cdict_rep in Hc.
+  destruct (rlookup r c) as [en|]; destruct Hc as [-> _]; [exact IH|reflexivity].
+Qed.
+
+Lemma RCDict_put s r id e ts att :
+  RCDict s r ->
+  RCDict (mkCDict (aset N.eqb (cd_env s) id e) (aset N.eqb (cd_meta s) id (mkDMeta ts att)))
+         (aset N.eqb r id (mkEntry e ts att)).
+Proof.
+  intros H. split; cbn [cd_env cd_meta].
+  - apply nnodup_set, (rcd_ref s r H).
+  - apply nnodup_set, (rcd_nodup s r H).
+  - intros j. unfold cdict_rep, rlookup. cbn [cd_env cd_meta]. rewrite !nget_set.
+    destruct (N.eqb_spec id j) as [<-|Hne]; [split; reflexivity|apply (rcd_rep s r H j)].
+Qed.
+
+(* updating one of the two maps with the value the other already agrees with *)
+Lemma RCDict_put_meta s r id en ts att :
+  RCDict s r -> rlookup r id = Some en ->
+  RCDict (mkCDict (cd_env s) (aset N.eqb (cd_meta s) id (mkDMeta ts att)))
+         (aset N.eqb r id (mkEntry (en_env en) ts att)).
+Proof.
+  intros H E. split; cbn [cd_env cd_meta].
+  - apply nnodup_set, (rcd_ref s r H).
+  - apply nnodup_set, (rcd_nodup s r H).
+  - intros j. unfold cdict_rep, rlookup. cbn [cd_env cd_meta]. rewrite !nget_set.
+    destruct (N.eqb_spec id j) as [<-|Hne]; [|apply (rcd_rep s r H j)].
+    pose proof (rcd_rep s r H id) as Hr. unfold cdict_rep in Hr. rewrite E in Hr. destruct Hr as [He _].
+    split; [exact He|reflexivity].
+Qed.
+
+Lemma RCDict_put_env s r id en e :
+  RCDict s r -> rlookup r id = Some en ->
+  RCDict (mkCDict (aset N.eqb (cd_env s) id e) (cd_meta s))
+         (aset N.eqb r id (mkEntry e (en_ts en) (en_att en))).
+Proof.
+  intros H E. split; cbn [cd_env cd_meta].
+  - apply nnodup_set, (rcd_ref s r H).
+  - apply (rcd_nodup s r H).
+  - intros j. unfold cdict_rep, rlookup. cbn [cd_env cd_meta]. rewrite !nget_set.
+    destruct (N.eqb_spec id j) as [<-|Hne]; [|apply (rcd_rep s r H j)].
+    pose proof (rcd_rep s r H id) as Hr. unfold cdict_rep in Hr. rewrite E in Hr. destruct Hr as [_ Hm].
+    split; [reflexivity|exact Hm].
+Qed.
+
+Lemma cdict_step_sim s r o :
+  RCDict s r -> wf_op r o = true ->
+  RCDict (fst (cdict_step true s o)) (fst (ref_step r o)) /\
+  res_match (snd (cdict_step true s o)) (snd (ref_step r o)).
+Proof.
+  intros H Hwf. destruct o; cbn [cdict_step ref_step].
+  - rewrite (cdict_pick_first_free s r cands H).
+    destruct (first_free r cands) as [id|]; cbn [fst snd]; [|split; [exact H|reflexivity]].
+    split; [apply RCDict_put; exact H|reflexivity].
+  - cbn [wf_op] in Hwf. destruct (rlookup r id) as [en|] eqn:E; [|discriminate].
+    pose proof (rcd_rep s r H id) as Hr. unfold cdict_rep in Hr. rewrite E in Hr. destruct Hr as [_ Hm].
+    rewrite Hm. cbn [fst snd dm_att]. split; [apply RCDict_put_meta; assumption|reflexivity].
+  - cbn [wf_op] in Hwf. destruct (rlookup r id) as [en|] eqn:E; [|discriminate].
+    pose proof (rcd_rep s r H id) as Hr. unfold cdict_rep in Hr. rewrite E in Hr. destruct Hr as [_ Hm].
+    rewrite Hm. cbn [fst snd dm_att dm_ts]. split; [apply RCDict_put_meta; assumption|reflexivity].
+  - destruct (rlookup r id) as [en|] eqn:E; [|cbn [wf_op] in Hwf; rewrite E in Hwf; discriminate].
+    destruct (wf_deliv_round r id idxs tmps en Hwf E) as (l & Hl).
+    pose proof (rcd_rep s r H id) as Hr. unfold cdict_rep in Hr. rewrite E in Hr. destruct Hr as [He _].
+    rewrite He, Hl, (round_round_p idxs _ l Hl). cbn [fst snd].
+    split; [apply RCDict_put_env; assumption|reflexivity].
+  - cbn [fst snd]. split; [exact H|]. cbn [res_match].
+    apply load_perm; [apply (rcd_nodup s r H)|apply (rcd_ref s r H)|].
+    intros id. pose proof (rcd_rep s r H id) as Hr. unfold cdict_rep, rlookup in Hr.
+    destruct (alookup N.eqb r id) as [en|]; destruct Hr as [_ ->]; reflexivity.
+  - pose proof (rcd_rep s r H id) as Hr. unfold cdict_rep in Hr.
+    destruct (rlookup r id) as [en|]; destruct Hr as [-> ->]; cbn [fst snd]; (split; [exact H|reflexivity]).
+  - cbn [fst snd]. split; [|reflexivity]. split; cbn [cd_env cd_meta].
+    + apply nnodup_del, (rcd_ref s r H).
+    + apply nnodup_del, (rcd_nodup s r H).
+    + intros j. unfold cdict_rep, rlookup. cbn [cd_env cd_meta]. rewrite !nget_del.
+      destruct (N.eqb_spec id j); [split; reflexivity|apply (rcd_rep s r H j)].
+Qed.
+
+Lemma cdict_run_brun ab s ops : cdict_run ab s ops = brun cdstate (cdict_step ab) s ops.
+Proof. revert s; induction ops as [|o ops IH]; intros s; cbn [cdict_run brun]; [reflexivity|].
+  destruct (cdict_step ab s o) as [s1 x]. rewrite IH. reflexivity. Qed.
+
+Theorem refines_dict_copying ops s r :
+  RCDict s r -> wf_ops r ops = true ->
+  RCDict (fst (cdict_run true s ops)) (fst (ref_run r ops)) /\
+  Forall2 res_match (snd (cdict_run true s ops)) (snd (ref_run r ops)).
+Proof.
+  intros HR Hwf. rewrite cdict_run_brun.
+  apply (run_sim cdstate (cdict_step true) RCDict (fun _ _ => True)); try assumption.
+  - intros s0 r0 o H1 H2 _. apply cdict_step_sim; assumption.
+  - apply oks_true.
+Qed.
+
+(* mutating the copy without assigning it back (the pre-d35 set_recipients_
+   delivered; the same shape as a set_timestamp / increment_attempts that
+   forgets `self.meta_db[id] = meta`) loses the update on this substrate *)
+Lemma dict_copying_noassign_refuted :
+  exists ops, wf_ops [] ops = true /\
+              ~ Forall2 res_match (snd (cdict_run false cdict_init ops)) (snd (ref_run [] ops)).
+Proof.
+  exists [OWrite (mkEnv [1] [[2]; [3]] [4]) 5 [7] []; ODeliv 7 [0] []; OIncr 7 []; OSetTs 7 9 []; OGet 7; OLoad 0].
+  split; [vm_compute; reflexivity|].
+  vm_compute. intros H.
+  inversion H as [|? ? ? ? _ H1]; subst. inversion H1 as [|? ? ? ? _ H2]; subst.
+  inversion H2 as [|? ? ? ? _ H3]; subst. inversion H3 as [|? ? ? ? _ H4]; subst.
+  inversion H4 as [|? ? ? ? E5 _]; subst. discriminate E5.
+Qed.
+
+Example dict_copying_noassign_witness :
+  snd (cdict_run false cdict_init [OWrite (mkEnv [1] [[2]; [3]] [4]) 5 [7] []; ODeliv 7 [0] []; OIncr 7 []; OSetTs 7 9 []; OGet 7; OLoad 0])
+    = [RId 7; RUnit; RAtt 1; RUnit; RGot (mkEnv [1] [[2]; [3]] [4]) 0; RLoad [(5, 7)]] /\
+  snd (cdict_run true cdict_init [OWrite (mkEnv [1] [[2]; [3]] [4]) 5 [7] []; ODeliv 7 [0] []; OIncr 7 []; OSetTs 7 9 []; OGet 7; OLoad 0])
+    = [RId 7; RUnit; RAtt 1; RUnit; RGot (mkEnv [1] [[3]] [4]) 1; RLoad [(9, 7)]].
+Proof. split; vm_compute; reflexivity. Qed.
+
 Lemma load_perm_ids {V2} (ids : list N) (g : N -> N) (m2 : amap N V2) (t2 : V2 -> N) :
   NoDup ids -> NoDup (akeys m2) ->
   (forall id, In id ids <-> alookup N.eqb m2 id <> None) ->
